@@ -16,6 +16,8 @@ CONSTANTS WantModes,    \* mode texts a user may put in {sub}/{set sub} for them
           MaxDepth,     \* bound on behaviour length (exhaustive mode: 0 = unbounded)
           Props,        \* properties whose monitors are checked on the model
           DumpPrefix,   \* "" = do not write behaviours
+          DelRanges,    \* alphabet of delete-range lists, e.g. {<< <<1,0>> >>, << <<1,3>>, <<2,0>> >>}
+          MaxDel,       \* bound on delete transactions per topic
           RandomWalk    \* TRUE (simulation): draw ONE enabled request per step instead of computing every successor
 
 VARIABLES st, hist, last
@@ -42,6 +44,12 @@ Acts(S) ==
                 s \in Sessions, t \in {x \in live : S.topics[x].seq < MaxSeq}, c \in {"c1"}, ne \in BOOLEAN}
       note == {[a |-> "Note", s |-> s, t |-> t, what |-> w, seq |-> n, chan |-> FALSE] :
                 s \in Sessions, t \in live, w \in {"read", "recv"}, n \in 0..(MaxSeq + 1)}
+      delmsg == {[a |-> "DelMsg", s |-> s, t |-> t, ranges |-> rg, hard |-> h, chan |-> FALSE] :
+                   s \in Sessions, t \in {x \in live : S.topics[x].delId < MaxDel}, rg \in DelRanges, h \in BOOLEAN}
+      getdata == {[a |-> "Get", s |-> s, t |-> t, what |-> "data", since |-> q[1], before |-> q[2], limit |-> q[3], chan |-> FALSE] :
+                    s \in Sessions, t \in live, q \in {<<0, 0, 0>>, <<2, 0, 0>>, <<0, 3, 0>>, <<2, 4, 0>>, <<3, 2, 0>>, <<0, 0, 2>>, <<1, 9, 1>>}}
+      getdel == {[a |-> "Get", s |-> s, t |-> t, what |-> "del", since |-> q[1], before |-> q[2], limit |-> 0, chan |-> FALSE] :
+                    s \in Sessions, t \in live, q \in {<<0, 0>>, <<1, 0>>, <<2, 0>>, <<1, 2>>}}
       unload == {[a |-> "Unload", t |-> t] : t \in {x \in live : S.cache[x].loaded /\ S.cache[x].att = <<>>}}
   IN (IF "NewGrp" \in Kinds THEN newgrp ELSE {}) \cup (IF "Sub" \in Kinds THEN sub ELSE {})
      \cup (IF "Leave" \in Kinds THEN leave ELSE {}) \cup (IF "SetSelf" \in Kinds THEN setself ELSE {})
@@ -49,7 +57,11 @@ Acts(S) ==
      \cup (IF "SetDesc" \in Kinds THEN {x \in setdesc : x.t \in M(S.sess[x.s].subs) /\ ~(x.auth = <<"-">> /\ x.public = "-")} ELSE {})
      \cup (IF "SetOther" \in Kinds THEN { x \in setother : x.t \in M(S.sess[x.s].subs) /\ x.u # SessUser[x.s]} ELSE {})
      \cup (IF "DelSub" \in Kinds THEN delsub ELSE {}) \cup (IF "Pub" \in Kinds THEN pub ELSE {})
-     \cup (IF "Note" \in Kinds THEN note ELSE {}) \cup (IF "Unload" \in Kinds THEN unload ELSE {})
+     \cup (IF "Note" \in Kinds THEN note ELSE {})
+     \* requests that need attachment are drawn for attached sessions (plus one detached representative: the refusal path)
+     \cup (IF "DelMsg" \in Kinds THEN {x \in delmsg : x.t \in M(S.sess[x.s].subs) \/ (x.s = SessOrder[Len(SessOrder)] /\ x.ranges = << <<1, 0>> >>)} ELSE {})
+     \cup (IF "GetData" \in Kinds THEN {x \in getdata : x.t \in M(S.sess[x.s].subs) \/ (x.s = SessOrder[Len(SessOrder)] /\ x.since = 0 /\ x.before = 0 /\ x.limit = 0)} ELSE {})
+     \cup (IF "GetDel" \in Kinds THEN {x \in getdel : x.t \in M(S.sess[x.s].subs) \/ (x.s = SessOrder[Len(SessOrder)] /\ x.since = 0 /\ x.before = 0)} ELSE {}) \cup (IF "Unload" \in Kinds THEN unload ELSE {})
 
 \* what clients would observe according to the model
 ObsOf(S, a, r) ==
@@ -59,12 +71,22 @@ ObsOf(S, a, r) ==
    data |-> IF isPub THEN {[s |-> x, seq |-> r.out.seq, from |-> SessUser[a.s], content |-> a.c] : x \in r.out.dataTo} ELSE {},
    ndata |-> [x \in Sessions |-> IF isPub /\ x \in r.out.dataTo THEN 1 ELSE 0],
    push |-> IF isPub THEN {r.out.pushTo} ELSE {},
-   ackSeq |-> IF isPub THEN r.out.seq ELSE 0]
+   ackSeq |-> IF isPub THEN r.out.seq ELSE 0,
+   ackDel |-> IF a.a = "DelMsg" /\ r.out.code = 200 THEN r.out.seq ELSE 0,
+   delmeta |-> {}]
+
+\* simulation: first draw the KIND of request uniformly among the kinds that have an enabled instance, then the instance
+\* (otherwise kinds with large argument alphabets crowd out publishes and subscriptions)
+KindOf(a) == IF a.a = "Get" THEN "Get" \o a.what ELSE a.a
+RandomAct(S) ==
+  LET acts == Acts(S)
+      k == RandomElement({KindOf(a) : a \in acts})
+  IN RandomElement({a \in acts : KindOf(a) = k})
 
 Init == st = InitState /\ hist = <<>> /\ last = [a |-> "Init"]
 
 Next == /\ (MaxDepth = 0 \/ Len(hist) < MaxDepth)
-        /\ \E a \in (IF RandomWalk THEN {RandomElement(Acts(st))} ELSE Acts(st)) :
+        /\ \E a \in (IF RandomWalk THEN {RandomAct(st)} ELSE Acts(st)) :
              /\ st' = Step(st, a).st
              /\ hist' = IF DumpPrefix = "" THEN <<>> ELSE Append(hist, a)
              /\ last' = a
